@@ -34,10 +34,10 @@ Theorem C18_srt_total_any_classification : forall oracle items k,
 Proof. exact srt_views_internal. Qed.
 Print Assumptions C18_srt_total_any_classification.
 
-(* _TextParser: no internal error unless an end tag closes nothing (finding srt-stray-end-tag) or a color attribute has no
-   value (finding srt-font-color-without-value) *)
+(* _TextParser on every callback sequence, unmatched and mismatched end tags included (the trigger srt-stray-end-tag went with
+   repository commit 818e997): no internal error unless a color attribute has no value (finding srt-font-color-without-value) *)
 Theorem C18_srt_cursor_partial : forall attached events,
-  srt_stray_end events = false -> srt_font_novalue events = false ->
+  srt_font_novalue events = false ->
   reader_ok (obs_of_outcome (srt_cursor_run attached events)) = true.
 Proof. intros. apply not_internal_ok. apply srt_cursor_partial; assumption. Qed.
 Print Assumptions C18_srt_cursor_partial.
@@ -58,8 +58,9 @@ Theorem C18_vtt_internal_origin_partial : forall oracle items k,
 Proof. exact vtt_views_partial. Qed.
 Print Assumptions C18_vtt_internal_origin_partial.
 
-(* _TextCueParser without ruby markup: no internal error unless an end tag closes nothing (vtt-stray-end-tag);
-   with <ruby>/<rt> the unconditional statement is false (vtt-rt-outside-ruby, vtt-ruby-structure) and nothing is proved *)
+(* _TextCueParser without a <ruby> tag (<rt> alone is an ordinary tag since commit 15db449, timestamp tags open nothing since
+   commit 8eaaab8): no internal error unless an end tag closes nothing (vtt-stray-end-tag); with <ruby> the unconditional
+   statement is false (vtt-ruby-structure) and nothing is proved *)
 Theorem C18_vtt_cursor_partial : forall attached events,
   vtt_stray_end events = false -> vtt_has_ruby events = false ->
   reader_ok (obs_of_outcome (vtt_cursor_run attached events)) = true.
@@ -82,11 +83,10 @@ Print Assumptions C18_scc_total.
 
 (* ---- 4. EBU STL ----------------------------------------------------------------------------------------------- *)
 (* over byte lists of any length and every reader configuration: struct.error for wrong sizes, otherwise no internal error
-   unless one of three executable triggers fires (stl-zero-row-count; stl-zero-block-count; stl-cumulative-block-first) or
-   tf.to_model (oracle) raises one *)
+   unless the executable trigger of stl-zero-row-count fires or tf.to_model (oracle) raises one (the triggers
+   stl-zero-block-count and stl-cumulative-block-first went with repository commits c08d0ef and 8f4f9e5) *)
 Theorem C18_stl_partial : forall cfg oracle file,
   trig_zero_rows cfg (firstn 1024 file) = false ->
-  trig_zero_count (firstn 1024 file) = false -> trig_cum_first cfg file = false ->
   (forall r, In r oracle -> sub_is_internal r = false) ->
   reader_ok (obs_of_outcome (stl_run cfg oracle file)) = true.
 Proof. intros. apply not_internal_ok. apply stl_partial; assumption. Qed.
@@ -94,7 +94,6 @@ Print Assumptions C18_stl_partial.
 
 Theorem C18_stl_internal_origin_partial : forall cfg oracle file k,
   trig_zero_rows cfg (firstn 1024 file) = false ->
-  trig_zero_count (firstn 1024 file) = false -> trig_cum_first cfg file = false ->
   stl_run cfg oracle file = Internal k -> In (SubInternal k) oracle.
 Proof. exact stl_run_internal. Qed.
 Print Assumptions C18_stl_internal_origin_partial.
@@ -132,6 +131,5 @@ Example C18_stl_partial_applies :
   let block := [0; 1; 0; 255; 0; 0; 0; 5; 0; 0; 0; 6; 0; 20; 2; 0] ++ repeat 143 112 in
   let cfg := {| cfg_start := StartNone; cfg_rows := RowsNone |} in
   trig_zero_rows cfg (firstn 1024 (gsi ++ block)) = false
-  /\ trig_zero_count (firstn 1024 (gsi ++ block)) = false /\ trig_cum_first cfg (gsi ++ block) = false
   /\ stl_run cfg [] (gsi ++ block) = OkDoc /\ stl_run cfg [] (gsi ++ firstn 100 block) = FormatError StructErr.
 Proof. repeat split; vm_compute; reflexivity. Qed.
